@@ -16,6 +16,7 @@ type Clause struct {
 	E     Expr
 	Line  int
 	Bound bool
+	Mask  string // varies clauses: the bits concerned (a constant)
 }
 
 type LoopSpec struct {
@@ -39,6 +40,7 @@ type PureFunc struct {
 }
 
 type FuncContract struct {
+	Varies    []*Clause // varies clauses: bits that must take both values
 	Name      string
 	Mode      string
 	Requires  []*Clause
@@ -80,7 +82,7 @@ type PkgContracts struct {
 
 var clauseKeywords = map[string]bool{
 	"mode": true, "requires": true, "ensures": true, "assigns": true, "loop": true, "inline": true,
-	"trusted": true, "lemma": true, "panics_iff": true, "ghost": true, "split": true, "opt": true, "bound": true, "pure": true,
+	"trusted": true, "lemma": true, "panics_iff": true, "ghost": true, "split": true, "opt": true, "bound": true, "pure": true, "varies": true,
 }
 
 var tagRe = regexp.MustCompile(`^\[([^\]]*)\]\s*`)
@@ -295,6 +297,20 @@ func ParseContractFile(path string) (*PkgContracts, error) {
 						c.Tags = []string{group}
 						fc.Splits = append(fc.Splits, c)
 					}
+				case "varies":
+					// varies [tags] EXPR mask CONST: every bit of EXPR selected by the mask takes both values at some return
+					txt := s.text
+					mask := ""
+					if k := strings.LastIndex(txt, " mask "); k >= 0 {
+						mask = strings.TrimSpace(txt[k+6:])
+						txt = txt[:k]
+					}
+					c, err := parseClause(txt, s.line)
+					if err != nil {
+						return nil, fmt.Errorf("%s:%v", path, err)
+					}
+					c.Mask = mask
+					fc.Varies = append(fc.Varies, c)
 				case "ghost":
 					// ghost name = expr
 					k := strings.Index(s.text, "=")
